@@ -113,13 +113,35 @@ def check_c06(run):
         run.sh([vh, "sec-materialise", "-cases", cp, "-out", sp])
         evs_all, n_all = [], 0
         # the whole document, and generation restricted to the operations tagged `sel` (Security!Selection)
-        for variant, flags in (("all", []), ("tagged", ["--tags", "sel"])):
+        for variant, flags in (("all", []), ("tagged", ["--tags", "sel"]), ("autoconf", ["--implementation-package", "scratch/gen/impl"])):
             e, n = one_variant(g, cs, sp, variant, flags)
             evs_all += e; n_all += n
         return g, evs_all, n_all
 
+    def build_autoconf(g, sp, flags):
+        """generate server --implementation-package: the generated auto_configure file wires the authenticators
+        and handlers of a backend package, written here from the interfaces that file declares"""
+        swagger = run.build_swagger()
+        tag = g + "-autoconf"
+        mod = run.scratch_module("srv-" + tag, modname="scratch/gen")
+        gen = run.sh([swagger, "generate", "server", "-f", sp, "-t", mod, "--name", "verif"] + flags, cwd=mod, check=False, timeout=1800)
+        if gen.returncode != 0:
+            return None, "generate: " + gen.stderr[-2000:]
+        os.makedirs(os.path.join(mod, "impl"), exist_ok=True)
+        run.sh([vh, "impl-gen", "-auto", os.path.join(mod, "restapi", "auto_configure_verif.go"), "-out", os.path.join(mod, "impl", "impl.go")])
+        os.makedirs(os.path.join(mod, "drv"), exist_ok=True)
+        shutil.copy(os.path.join(HARNESS, "drivers", "autodrv", "main.go.txt"), os.path.join(mod, "drv", "main.go"))
+        out = run.path("bin", "autodrv-" + tag)
+        b = run.sh(["go", "build", "-o", out, "./drv"], cwd=mod, check=False, timeout=1800)
+        if b.returncode != 0:
+            return None, "build: " + b.stderr[-3000:]
+        return out, ""
+
     def one_variant(g, cs, sp, variant, flags):
-        drv, err = build_server(run, g + "-" + variant, sp, extra_flags=flags)
+        if variant == "autoconf":
+            drv, err = build_autoconf(g, sp, flags)
+        else:
+            drv, err = build_server(run, g + "-" + variant, sp, extra_flags=flags)
         if not drv:
             return [dict(ev="Server", g=g, ok=False, err=err[:800])], 0
         reqs, meta = [], []
@@ -150,7 +172,7 @@ def check_c06(run):
         if ev["ev"] == "Server":
             run.violations.append(dict(signature="server for global requirement %s: %s" % (ev["g"], e["why"]), detail=ev)); continue
         sig = "%s | global=%s own=%s creds=%s deny=%s%s" % (e["why"], ev["g"], "inherit" if ev["inherit"] else json.dumps(ev["own"]),
-                                                            json.dumps(ev["creds"], sort_keys=True), ev["deny"], ("" if ev["valid"] else " invalid-request") + ("" if ev["selection"] == "all" else " --tags"))
+                                                            json.dumps(ev["creds"], sort_keys=True), ev["deny"], ("" if ev["valid"] else " invalid-request") + ("" if ev["selection"] == "all" else " --" + ev["selection"]))
         run.violations.append(dict(signature=sig, detail=ev))
     nreq = sum(n for _, _, n in results)
     cov = dict(states=mc["states"] + gen["states"], transitions=mc["transitions"] + gen["transitions"],
